@@ -631,12 +631,13 @@ class Normaliser:
         ``sequence = IAC + DO + option``) are replaced by that expression.
     Rules written against the direct shape then read refactored code the same way.  ``known`` = names never inlined."""
 
-    def __init__(self, mod, cls_names, known, subscripts: bool = True):
+    def __init__(self, mod, cls_names, known, subscripts: bool = True, presplit: bool = False):
         from sa.props._lib_d import Inliner
         from sa.source import methods as _methods
         public = {n for c in mod.classes() if c.name in cls_names for n in _methods(c) if not n.startswith("_") or n.startswith("__")}
         self.inl = Inliner(mod, cls_names, set(known) | public)      # only private helpers are ever expanded
         self.subscripts = subscripts
+        self.presplit = presplit
         self._views: Dict[int, ast.AST] = {}
         self._n = 0
 
@@ -649,6 +650,8 @@ class Normaliser:
             return v
         from sa.props._lib_d import _clone
         v = _clone(func)
+        if self.presplit:
+            v.body = self._presplit(v.body, v)
         v.body = self._hoist_block(v.body)
         v.body = self.inl._stmts(v.body, 0)
         for _ in range(4):
@@ -661,6 +664,56 @@ class Normaliser:
         v._parent = getattr(func, "_parent", None)  # type: ignore[attr-defined]
         self._views[id(func)] = v
         return v
+
+    # -- (0) `a, b = x, y` -> `a = x; b = y` when no target is read by a later element; a boolean temporary that is
+    #        tested by the immediately following `if` (and used nowhere else) is put back into the test
+    def _presplit(self, stmts, func):
+        out = []
+        for st in stmts:
+            for field in ("body", "orelse", "finalbody"):
+                if isinstance(getattr(st, field, None), list) and not isinstance(st, (ast.FunctionDef, ast.AsyncFunctionDef, ast.ClassDef)):
+                    setattr(st, field, self._presplit(getattr(st, field), func))
+            for h in getattr(st, "handlers", []) or []:
+                h.body = self._presplit(h.body, func)
+            if isinstance(st, ast.Assign) and len(st.targets) == 1 and isinstance(st.targets[0], (ast.Tuple, ast.List)) and isinstance(st.value, (ast.Tuple, ast.List)) \
+                    and len(st.targets[0].elts) == len(st.value.elts) and not any(isinstance(e, ast.Starred) for e in st.targets[0].elts + st.value.elts) \
+                    and all(isinstance(t, (ast.Name, ast.Attribute)) for t in st.targets[0].elts):
+                tg, vs = st.targets[0].elts, st.value.elts
+                clash = False
+                for i, t in enumerate(tg):
+                    ts = src(t)
+                    for v in vs[i + 1:]:
+                        if any(isinstance(x, (ast.Name, ast.Attribute)) and src(x) == ts for x in ast.walk(v)) or any(isinstance(x, ast.Call) for x in ast.walk(v)):
+                            clash = True
+                if not clash:
+                    for t, v in zip(tg, vs):
+                        out.append(ast.copy_location(ast.Assign(targets=[t], value=v, lineno=st.lineno), st))
+                    continue
+            out.append(st)
+        # boolean temporary + adjacent test
+        res = []
+        i = 0
+        while i < len(out):
+            st = out[i]
+            nxt = out[i + 1] if i + 1 < len(out) else None
+            if isinstance(st, ast.Assign) and len(st.targets) == 1 and isinstance(st.targets[0], ast.Name) and isinstance(nxt, ast.If) \
+                    and isinstance(st.value, (ast.BoolOp, ast.Compare, ast.UnaryOp)) and not any(isinstance(x, (ast.Call, ast.NamedExpr, ast.Await)) and not
+                                                                                                  (isinstance(x, ast.Call) and dotted(x.func) == "len") for x in ast.walk(st.value)):
+                name = st.targets[0].id
+                uses = [x for x in ast.walk(func) if isinstance(x, ast.Name) and x.id == name]
+                in_test = [x for x in ast.walk(nxt.test) if isinstance(x, ast.Name) and x.id == name and isinstance(x.ctx, ast.Load)]
+                if len(uses) == 2 and len(in_test) == 1:
+                    val = st.value
+
+                    class R(ast.NodeTransformer):
+                        def visit_Name(self, node):
+                            return ast.copy_location(val, node) if node.id == name else node
+                    nxt.test = R().visit(nxt.test)
+                    i += 1
+                    continue
+            res.append(st)
+            i += 1
+        return res
 
     # -- (1) helper calls nested in expressions -> temporaries
     def _hoist_block(self, stmts):
